@@ -43,6 +43,22 @@ class Listen(object):
     def call(self, suffix):
         return calls(self.body, suffix)
 
+    def keep_alive_ok_edges(self):
+        """Continue edges of `?` applied to keep_alive()'s result inside a select!: infeasible, because
+        keep_alive() never returns Ok (decided by C07/raced/never-ok, re-checked by every user of this)"""
+        out = []
+        for bb, t in calls(self.body, "Connection::keep_alive"):
+            for swb, okt, errt in try_edges(self.an, bb):
+                out.append((swb, okt))
+        return out
+
+    def keep_alive_never_ok(self):
+        kb = self.ctx.body(KEEP, rule="C07/raced")
+        if kb is None:
+            return False
+        ev = events.extract(self.ctx, kb)
+        return not any(e[1] in ("ret:ok", "ret:?") for es in ev.values() for e in es)
+
     def send_agg(self, tname_suffix, key=None):
         """[(bb, term, aggregate expr)] for send_packet::<T> sites with T ending in tname_suffix"""
         out = []
